@@ -28,8 +28,24 @@ NOTES = {
  'C19-set-velocity-eq-assume-false': 'State::set_constant_velocity in builds with dimension checking compiled out',
  'C20-actuator-skip-if-not-newer': 'second ActuatorWrapper update whose combined data changed without a strictly later stamp',
  'C20-pid-clock-only-with-state': 'PIDWrapper whose terminal has carried commands but never a state, same command repeated with later stamps',
+ 'C05-freeze-input-error-while-frozen': 'freeze: condition true while the input errs (the frozen value is overwritten by the error)',
+ 'C13-axle-scan-stops-at-empty': 'axle whose newest command sits behind a terminal that has no command at all',
+ 'C02-latest-stops-at-error': 'newest-of with an errored input in front of the input that should win (`map_while` for `filter_map`)',
+ 'C17-arcmutex-clone-bitwise': 'ArcMutex Reference cloned (bitwise copy, no refcount) and one alias dropped while another lives',
+ 'C12-ewmaq-absent-clears-update-time': 'Quantity EWMA: sample, absent, sample -> `expect` panic',
+ 'C08-differential-sum-mode-waits-for-sum': 'sum-distrust differential with both sides known and no sum reading at all',
+ 'C19-nostd-time-div-shift': 'no_std builds only: negative Time / power-of-two DimensionlessInteger rounds down instead of toward zero',
+ 'C16-axle-get-terminal-off-by-one': '`Axle<N>::get_terminal(N)` returns a reference one past the terminal array instead of panicking',
 }
 HISTORY = {
+ 'C16-axle-get-terminal-off-by-one': 'MISSED at both tiers: no program of the harness ever asked an axle for a terminal it does not have. The Miri axle '
+   'cases now probe `get_terminal(N)`, `N+1` and `usize::MAX` and require a panic; Miri reports the out-of-bounds reference. Caught at quick tier since.',
+ 'C19-nostd-time-div-shift': 'caught only by the THOROUGH tier at first (through a motion profile whose first phase lasts an odd number of nanoseconds, a '
+   '1-2 ulp difference). The value-level API world did not exercise the exact integer operators at all; it now enumerates all 19 integer operator forms over a '
+   '12 x 12 operand grid (signs, zero, odd/even, powers of two) at the start of every batch. Caught at quick tier since.',
+ 'C17-arcmutex-clone-bitwise': 'DETECTED BUT MIS-REPORTED at first: the history oracle saw `target_freed_early`, then the shuttle stage process was killed by the '
+   'corrupted heap and the driver exited 2 (harness error) before printing anything. A killed shuttle process is now itself a violation whose replay is the '
+   'seeded run, and earlier findings are printed first.',
  'C20-pid-clock-only-with-state': 'MISSED by the first version of the C20 check at both tiers: the generator always delivered a state before the first '
    'command (the design had declared command-only rounds outside the statement). The statement does cover them (the twin runs on the constructor state), '
    'so the generator now produces command-only openings in 40 % of the PID-wrapper runs; caught at quick tier since.',
